@@ -1,5 +1,6 @@
 import KcpVerif.Model.Kcp
 import KcpVerif.Lemmas.KcpShiftOps
+import KcpVerif.Lemmas.KcpShiftSafe
 /-!
 C12 — behaviour is invariant under sequence-number and clock wrap-around (protocol core).
 
@@ -116,6 +117,14 @@ theorem C12_input_shift_partial {σ : Sigma} {k k' : Kcp} (h : Sim σ k k') (dat
     InRel σ (input k data regular ackNoDelay now) (input k' (shiftIn σ data) regular ackNoDelay (now + σ.t)) :=
   input_sim h data regular ackNoDelay now hs
 
+/-- a sufficient condition that needs no look at the datagram: when every segment in `snd_buf` has
+been transmitted at least once (false only between an ACK-only flush that admitted segments and the
+next full flush), `Input` commutes with the shift for EVERY byte string — forged, stale, malformed -/
+theorem C12_input_shift_all_sent {σ : Sigma} {k k' : Kcp} (h : Sim σ k k') (hall : AllSent k.snd_buf)
+    (data : Bytes) (regular ackNoDelay : Bool) (now : U32) :
+    InRel σ (input k data regular ackNoDelay now) (input k' (shiftIn σ data) regular ackNoDelay (now + σ.t)) :=
+  input_sim h data regular ackNoDelay now (inputSafe_of_allSent k data regular hall)
+
 /-! ### the simulation theorem -/
 
 /-- FULL statement: every operation commutes with every shift. -/
@@ -191,6 +200,11 @@ set_option maxRecDepth 100000 in
 example : All₂ (ObsRel C12_demoσ) (run (Kcp.new 7) C12_demoOps).2
     (run (shiftK C12_demoσ (Kcp.new 7)) (C12_demoOps.map (shiftOp C12_demoσ))).2 :=
   C12_run_from_new_partial C12_demoσ 7 C12_demoOps (by decide)
+
+set_option maxRecDepth 100000 in
+/-- `AllSent` holds in a non-trivial state: two segments in flight after a full flush -/
+example : (run (Kcp.new 7) (C12_demoOps.take 4)).1.snd_buf.length = 2 ∧
+    ((run (Kcp.new 7) (C12_demoOps.take 4)).1.snd_buf.all (fun s => decide (s.xmit ≠ 0))) = true := by decide
 
 /-! ### the finding: the side condition is necessary -/
 
